@@ -57,7 +57,9 @@ int _vnadata_convert_to_fz0(vnadata_internal_t *vdip)
 			return -1;
 		    }
 		    for (int port = 0; port < vdip->vdi_p_allocation; ++port) {
-			clfpp[findex][port] = vdip->vdi_z0_vector[port];
+			clfpp[findex][port] =
+			    findex < vdip->vdi_vd.vd_frequencies ?
+			    vdip->vdi_z0_vector[port] : VNADATA_DEFAULT_Z0;
 		    }
 		}
 	    }
